@@ -24,7 +24,7 @@ def jobs(tier):
     T = sys.modules["ctparse.timers"]
     out = [Job("C13.timer", H, "ob_timer", timeout=300, bounds="timeout 0..1000 s, start and two non-decreasing later clock values, symbolic integer ticks (float rounding outside the claim)",
                functions=[fn_id(T.timeout)], stubs=["perf_counter scripted"], site="timers.timeout")]
-    texts = ["tomorrow 8pm", "9 9", "9 9 9"] if tier == "quick" else ["tomorrow 8pm", "mon 8", "9", "9 9", "9 9 9", "9 9 9 9"]
+    texts = ["tomorrow 8pm", "9 9", "9 9 9"] if tier == "quick" else ["tomorrow 8pm", "mon 8", "9", "9 9", "9 9 9", "mon 8 9", "heute 9 uhr 30"]
     for text in texts:
         n = nreads(text)
         chunk = 40 if tier == "quick" else 60
